@@ -250,6 +250,20 @@ class Eval:
             return None
         if k == "CompoundStmt":
             return self.block(st)
+        if k == "IfStmt" and not (st.get("hasInit") or st.get("hasVar")):
+            # structured: condition, effects of each branch (option-struct marshalling is checked block by block)
+            self.complex.append(k)
+            parts = [c for c in st.get("inner", []) if c and c.get("kind")]
+            cond = self.ev(parts[0])
+            branches = []
+            for br in parts[1:3]:
+                saved_eff, saved_ret = self.effects, self.ret
+                self.effects = []
+                self.stmt(br)
+                branches.append(self.effects)
+                self.effects, self.ret = saved_eff, saved_ret
+            self.effects.append(V("if", c=cond, then=branches[0] if branches else [], els=branches[1] if len(branches) > 1 else []))
+            return None
         if k in ("ForStmt", "IfStmt", "WhileStmt", "CXXForRangeStmt", "DoStmt", "SwitchStmt"):
             self.complex.append(k)
             # still evaluate the pieces so that parameter uses, news and effects are seen
@@ -806,9 +820,71 @@ def summarise(ix, name, hdr, dfn, ev):
     else:
         kind = {"k": "wrap"}
     return {"name": name, "ret": dfn["type"]["qualType"].split("(")[0].strip(), "params": cps, "hparams": hps,
+            "opts": option_blocks(name, cps, ix.plain_struct_names, tree),
             "kind": kind, "calls": ucalls, "result": res, "news": news, "plain_new": ev.plain_new,
             "deletes": ev.deletes, "unused": unused, "uses": uses, "cb": cbs, "complex": ev.complex,
             "tree": tree}
+
+
+def expr_text(v):
+    v = strip_bool(v)
+    k = v.get("k")
+    if k == "param":
+        return v["name"]
+    if k == "const":
+        return v["text"]
+    if k == "bin":
+        return expr_text(v["l"]) + v["op"] + expr_text(v["r"])
+    if k == "member" and v["e"].get("k") == "deref" and v["e"]["e"].get("k") == "param":
+        return v["e"]["e"]["name"] + "->" + v["field"]
+    raise Unclassified("length expression of kind %s" % k)
+
+
+def option_blocks(name, cps, struct_names, tree):
+    """Functions taking a pointer to a plain C options struct: every use of the struct must be a block
+         if (opt->G != nullptr) { result->M = vector_of_array(opt->S, <len>); }
+       -> (struct, [(G, S, len, M)]).  Anything else touching the struct is not understood (loud)."""
+    optp = [(p, t[:-2].strip()) for p, t in cps if t.endswith(" *") and t[:-2].strip() in struct_names]
+    if not optp:
+        return None
+    if len(optp) > 1:
+        raise Unclassified("%s takes more than one options struct" % name)
+    op, sname = optp[0]
+
+    def field_of(v):
+        v = strip_bool(v)
+        if v.get("k") == "member" and v["e"].get("k") == "deref" and v["e"]["e"].get("k") == "param" and v["e"]["e"]["name"] == op:
+            return v["field"]
+        return None
+    blocks, in_blocks = [], 0
+    for eff in tree["eff"]:
+        if eff.get("k") != "if":
+            if op in params_in(eff):
+                raise Unclassified("%s uses its options struct outside a guarded block" % name)
+            continue
+        c = strip_bool(eff["c"])
+        g = None
+        if c.get("k") == "bin" and c["op"] == "!=" and c["r"].get("k") == "const" and c["r"]["text"] == "nullptr":
+            g = field_of(c["l"])
+        elif field_of(c):
+            g = field_of(c)
+        if g is None or eff["els"]:
+            raise Unclassified("%s: option block with an unexpected guard" % name)
+        if len(eff["then"]) != 1:
+            raise Unclassified("%s: option block guarded by %s has %d statements" % (name, g, len(eff["then"])))
+        a = eff["then"][0]
+        if not (a.get("k") == "call" and a["callee"]["name"] == "operator=" and len(a["args"]) == 2):
+            raise Unclassified("%s: option block guarded by %s is not an assignment" % (name, g))
+        dst, src = a["args"]
+        if a.get("recv") is not None:
+            dst, src = a["recv"], a["args"][0]
+        if not (dst.get("k") == "member" and any(x.get("k") == "new" for x in walk(dst["e"]))):
+            raise Unclassified("%s: option block guarded by %s does not assign a member of the result" % (name, g))
+        if not (src.get("k") == "array" and field_of(src["ptr"])):
+            raise Unclassified("%s: option block guarded by %s does not copy an options array" % (name, g))
+        ln = field_of(src["len"]) or expr_text(src["len"])
+        blocks.append((g, field_of(src["ptr"]), ln, dst["field"]))
+    return {"fn": name, "struct": sname, "param": op, "blocks": blocks}
 
 
 # ----------------------------------------------- conv.cpp: casts and enums
@@ -1020,6 +1096,9 @@ def emit_coq(path, T):
     L.append("Definition vec_convs : list (string * list string) := %s.\n" % en(T["vec_convs"]))
     L.append("Definition c_structs : list (string * list string) := %s.\n" % en(T["c_structs"]))
     L.append("Definition opaque_handles : list string := %s.\n" % clist(map(cq, T["opaque_handles"])))
+    L.append("Definition option_structs : list string := %s.\n" % clist(map(cq, T.get("option_structs", []))))
+    L.append("Definition opt_tables : list (string * string * list (string * string * string * string)) := %s.\n" % clist(
+        "(%s, %s, %s)" % (cq(f), cq(st), clist("(%s, %s, %s, %s)" % tuple(map(cq, b)) for b in bl)) for f, st, bl in T.get("opt_tables", [])))
     txt = "\n".join(L)
     old = open(path).read() if os.path.exists(path) else None
     if old != txt:
@@ -1039,6 +1118,12 @@ def translate(repo, workdir, coq_out=None, json_out=None, keep_dump=False):
     for t in tops:
         if t.get("kind") in ("TypeAliasDecl", "TypedefDecl") and t.get("name") in ("ManifoldVec", "CrossSectionVec", "RayHitVec"):
             ALIASES[t["name"]] = norm_type(t["type"].get("desugaredQualType") or t["type"]["qualType"])
+    ix.plain_struct_names = set()
+    for t in tops:
+        for n in (t.get("inner", []) if t.get("kind") == "LinkageSpecDecl" else [t]):
+            if n.get("kind") == "CXXRecordDecl" and str(n.get("name", "")).startswith("Manifold") and n.get("completeDefinition") \
+                    and any(c.get("kind") == "FieldDecl" and "*" in c["type"]["qualType"] for c in n.get("inner", [])):
+                ix.plain_struct_names.add(n["name"])       # a struct of optional arrays (vector structs ManifoldVecN are passed as arrays)
     entries, header_only, undeclared, problems = [], [], [], []
     for name, ds in ix.cfuncs.items():
         defs = [d for d in ds if body_of(d)]
@@ -1077,7 +1162,9 @@ def translate(repo, workdir, coq_out=None, json_out=None, keep_dump=False):
     T = {"source": "bindings/c/{%s}" % ",".join(order), "entries": entries, "header_only": header_only,
          "undeclared": undeclared, "handles_from": hf, "handles_to": ht, "enum_from": ef, "enum_to": et_,
          "c_enums": c_enums, "cxx_enums": cxx_enums, "vec_convs": vc, "c_structs": c_structs,
-         "opaque_handles": opaque}
+         "opaque_handles": opaque,
+         "option_structs": sorted(ix.plain_struct_names),
+         "opt_tables": [(e["opts"]["fn"], e["opts"]["struct"], e["opts"]["blocks"]) for e in entries if e.get("opts")]}
     if coq_out:
         emit_coq(coq_out, T)
     if json_out:
